@@ -51,6 +51,7 @@ def check_C01(ctx, tier):
     G.rule_SIG(ctx, ctx.repo)              # arguments are filed under the parameter names of the callable that is actually called, inspected now
     G.rule_K_CAPTURE(ctx, ctx.repo)        # ... and none of the user's keywords is captured on the way
     K.rule_K_INFO_TYPED_SENT(ctx, ctx.repo)    # the keymaps C01 calls information-preserving really keep every argument, type tag and segment boundary
+    K.rule_K_SENTINEL_SET(ctx, ctx.repo)       # ... with the separator the caller configured
     K.rule_K_FAST(ctx, ctx.repo)
     K.rule_K_HASH(ctx, ctx.repo)
     K.rule_K_DISPATCH(ctx, ctx.repo)
@@ -58,6 +59,8 @@ def check_C01(ctx, tier):
     A.rule_A_GLOBAL(ctx, ctx.repo)         # ... and two archives never share a store through a process-wide registry
     A.rule_A_SCHEMA(ctx, ctx.repo)         # ... nor two keys one row through a column affinity
     A.rule_A_SIBLINGS(ctx, ctx.repo)       # what cache.load() reads (__asdict__ / __getitem__) is the value, decoded the same way by every reader
+    A.rule_A_CODEC_CONFIG(ctx, ctx.repo)         # ... decided by the archive's settings, not by what the value looks like
+    A.rule_A_SETTINGS_EXPLICIT(ctx, ctx.repo)     # ... which are the ones the caller passed, not ones guessed from the archive's name
     ctx.require_instances('W-KEY', 36, 'key uses')
     ctx.require_instances('W-ARGS', 12, 'evaluation sites')
     ctx.assume('an entry (k -> v) in memory or archive satisfies v = f(a) for K(a) = k at the start of the call (inductive hypothesis)')
@@ -79,6 +82,7 @@ def check_C02(ctx, tier):
         if d.name == 'lfu_cache':
             _sample_paths(ctx, d, paths, lambda o: o.kind == 'return' and any(e.kind == 'EVAL' for e in o.st.events) and o.st.facts.get('archived'))
     S.rule_S_LOAD_DUMP(ctx, ctx.repo)      # load(k) finds what dump(k) wrote, at the cache level
+    S.rule_S_NOSWALLOW(ctx, ctx.repo)      # ... and a dump that failed says so (the wrappers discard from memory right after it)
     ac = A.Cache(ctx.repo, unroll=1)
     A.rule_A_FNAME(ctx, ctx.repo, ac)             # ... under an entry name that is the same in every session
     A.rule_A_KEYERR_FOUND(ctx, ctx.repo, ac)      # ... and a stored None / 0 / '' is found, not reported as missing
@@ -88,6 +92,7 @@ def check_C02(ctx, tier):
     A.rule_A_PUBPARENTS(ctx, ctx.repo, ac)        # ... and an entry whose name is a nested path is really stored
     A.rule_A_CODEC(ctx, ctx.repo)                 # ... and what is stored can be decoded by the session that needs it
     A.rule_A_RED_COPY(ctx, ctx.repo, ac, parts=('red',))     # ... also when the archive reached that session inside a pickled decorator (same format settings)
+    A.rule_A_ABS(ctx, ctx.repo, ac)               # ... and under the same location whatever the working directory is by then
     ctx.assume('cache.load(k) retrieves what cache.dump(k) stored for every backend (C03/C04/C08 decide their structural part)')
     ctx.assume('cache.archived() and purge have one value during a single wrapper call')
     return ('Compute-once on every path: at most one evaluation; evaluation only directly after a failed lookup of K which, '
@@ -100,12 +105,15 @@ def check_C05(ctx, tier):
         W.rule_W_CAP(ctx, d, paths)
         W.rule_W_BK(ctx, d, paths)
         W.rule_W_BKRES(ctx, d, paths)
+        W.rule_W_ALIAS(ctx, d)
         W.rule_W_NEW(ctx, d)
         W.rule_W_STATE(ctx, d)
         W.rule_W_CLEAR(ctx, d)
         W.rule_W_WRITERS(ctx, d)                   # an entry removed behind the bookkeeping's back leaves a stale victim: the next overflow evicts nothing
+        W.rule_W_INTERNAL(ctx, d, paths)           # an exception of the wrapper's own making between the insertion and the eviction leaves the cache over its bound
         if d.name == 'mru_cache':
             _sample_paths(ctx, d, paths, lambda o: o.kind == 'return' and any(e.kind == 'DEL' for e in o.st.events))
+    S.rule_S_LOAD_DUMP(ctx, ctx.repo)              # cache.load(key) brings in at most the one entry the overflow test then accounts for (a tuple key is not unpacked)
     ctx.assume('a victim popped from the bookkeeping is still resident (container invariant "bookkeeping subset of resident"; '
                'W-BK checks the local steps that maintain it); paths where del cache[v] raises the swallowed KeyError are listed, not reported')
     return ('Capacity: after every insertion or load an overflow test len(cache) > maxsize (or stricter) is evaluated on every normal '
@@ -121,6 +129,7 @@ def check_C06(ctx, tier):
         W.rule_W_HITPURE(ctx, d, paths)
         W.rule_W_BK(ctx, d, paths)
         W.rule_W_BKRES(ctx, d, paths)
+        W.rule_W_ALIAS(ctx, d)                     # the bound-method shortcuts of the recency queue keep pointing at the queue
         if d.name == 'lru_cache' and d.modname == '_cache':
             _sample_paths(ctx, d, paths, lambda o: o.kind == 'return' and any((e.extra or {}).get('driver') for e in o.st.events))
     ctx.assume('tie-breaking among equal counts/recencies and residency of the selected victim are not decided')
@@ -141,12 +150,16 @@ def check_C07(ctx, tier):
         if d.name == 'rr_cache':
             _sample_paths(ctx, d, paths, lambda o: o.kind == 'return' and any(e.kind == 'DUMP' for e in o.st.events))
     S.rule_S_LOAD_DUMP(ctx, ctx.repo)      # S-DUMP: dump(k) writes exactly {k: self[k]} for resident k and removes nothing
+    S.rule_S_NOSWALLOW(ctx, ctx.repo)      # ... or raises
     S.rule_S_PLAIN_EFF(ctx, ctx.repo)      # ... and no other operation of the cache object (pop, del, clear, ...) reaches into the archive
     _ac = A.Cache(ctx.repo, unroll=1 if tier == 'quick' else 2)
     A.rule_A_PUBFAIL(ctx, ctx.repo, _ac)   # a failed write-back never replaces or removes what is archived
     A.rule_A_WRITEALL(ctx, ctx.repo, _ac)  # a dumped entry is written whatever the archive holds already
+    A.rule_A_FNAME(ctx, ctx.repo, _ac)     # ... under a name of its own (a dump never overwrites the entry of another key)
     A.rule_A_CODEC(ctx, ctx.repo)          # ... in a form the reader (of any program) can decode
     A.rule_A_SIBLINGS(ctx, ctx.repo)       # ... through the same encoders whichever writer (update / __setitem__) is used
+    A.rule_A_CODEC_CONFIG(ctx, ctx.repo)         # ... decided by the archive's settings, not by what the value looks like
+    A.rule_A_SETTINGS_EXPLICIT(ctx, ctx.repo)     # ... which are the ones the caller passed, not ones guessed from the archive's name
     return ('Every DEL(v)/CLEAR on a path with an archive attached is preceded by DUMP(v)/DUMP(*) with no intervening store; wrappers '
             'and management closures never touch the archive except through cache.dump/load.')
 
@@ -173,6 +186,7 @@ def check_C16(ctx, tier):
         W.rule_W_EXC(ctx, d, paths)
         W.rule_W_SAFE(ctx, d, paths)
         W.rule_W_BKRES(ctx, d, paths)              # a key recorded in the bookkeeping without being resident makes a later, ordinary call fail inside the wrapper
+        W.rule_W_INTERNAL(ctx, d, paths)           # nothing but the function's own exception (or, outside klepto.safe, an unhashable key) leaves the call
         if d.name == 'lru_cache' and d.modname == 'safe':
             _sample_paths(ctx, d, paths, lambda o: any(e.kind == 'GETERR' for e in o.st.events))
     A.rule_A_READFAIL(ctx, ctx.repo, A.Cache(ctx.repo, unroll=1))   # the archive probe on a miss answers "absent" (KeyError) for a key it cannot read; anything else escapes the wrapper before the function ran
@@ -202,6 +216,9 @@ def check_C09(ctx, tier):
     G.rule_SIG(ctx, ctx.repo)                      # positional values are filed under the names of the callable that is actually bound
     G.rule_K_CAPTURE(ctx, ctx.repo)                # every keyword of the call travels to the key generation
     G.rule_G_PROBE(ctx, ctx.repo)                  # positional and keyword spelling of a call are keyed alike whatever the argument objects do when probed
+    G.rule_G_SELFTRUTH(ctx, ctx.repo)              # ... or evaluate to as booleans
+    G.rule_G_SELFDROP(ctx, ctx.repo)               # which parameters are masked does not depend on whether the call spells its arguments positionally
+    G.rule_V_PARTIALSHAPE(ctx, ctx.repo)           # the names values are filed under are those of the callable itself, not of a delegate it happens to keep in `.func`
     G.rule_G(ctx, ctx.repo, want=('G-VAL', 'G-PREC'))
     G.rule_G_STALE(ctx, ctx.repo)
     RR.rule_R_GUARD_STR_KW(ctx, ctx.repo)          # rounding, which runs before the binding to names, treats a value alike whether it came positionally or by keyword
@@ -216,6 +233,7 @@ def check_C09(ctx, tier):
 
 def check_C10(ctx, tier):
     K.rule_K_INFO_TYPED_SENT(ctx, ctx.repo)
+    K.rule_K_SENTINEL_SET(ctx, ctx.repo)
     K.rule_K_HASH(ctx, ctx.repo)
     K.rule_K_DISPATCH(ctx, ctx.repo)
     K.rule_K_FAST(ctx, ctx.repo)
@@ -224,6 +242,7 @@ def check_C10(ctx, tier):
     G.rule_K_CAPTURE(ctx, ctx.repo)        # no function on the way captures a user keyword by name
     G.rule_G(ctx, ctx.repo, want=('G-VAL', 'G-PREC'))
     RR.rule_R_GUARD_STR_KW(ctx, ctx.repo)  # rounding touches floats only: every other value (bool vs int under typed=True) reaches the keymap as it was passed
+    RR.rule_R_PURE(ctx, ctx.repo)          # the package never changes a keymap (its typed / flat / sentinel settings) that the caller handed in
     ctx.assume('injectivity of repr/str/pickle of the argument values and fast-type unwrapping collisions are not decided')
     return ('Every positional argument and every (name, value) keyword item reaches the key whole on every path of keymap.encode/encrypt; '
             'typed keys append the types of all positional and all keyword values; a configured sentinel separates every two adjacent '
@@ -238,6 +257,7 @@ def check_C17(ctx, tier):
     K.rule_K_OWN(ctx, ctx.repo)     # a key must not depend on what this process keyed before (module-level state on the key path)
     K.rule_K_BYREF(ctx, ctx.repo)   # dill pickles by reference
     S.rule_S_LOAD_DUMP(ctx, ctx.repo)   # the key is handed to the archive as the one object it is (a raw key is a tuple: never unpacked into several keys)
+    RR.rule_R_STATELESS(ctx, ctx.repo)  # rounding (the first step of every key) keeps no state between calls
     ctx.assume("process independence of the arguments' own repr/pickle is assumed by the property")
     return ('No process-dependent value (builtin hash, id, random, time, set iteration) reaches a key in the raw/string/pickle/named-hash '
             'configurations; keyword order is removed by the sorter; marker objects embedded in keys have constant reprs.')
@@ -252,6 +272,9 @@ def check_C11(ctx, tier):
     G.rule_G_FIELDS(ctx, ctx.repo)
     G.rule_G(ctx, ctx.repo, want=('G-VAL',))       # everything that is not ignored still reaches the key
     G.rule_G_SELFDROP(ctx, ctx.repo)               # ... also the first positional argument, unless its own parameter is ignored
+    G.rule_G_SELFTRUTH(ctx, ctx.repo)              # ... and the instance is recognised whatever its truth value
+    G.rule_V_TRYRESET(ctx, ctx.repo)               # names and values stay aligned: an object that merely has an `.args` attribute is not taken for a partial
+    G.rule_V_PARTIALSHAPE(ctx, ctx.repo)
     K.rule_K_OWN(ctx, ctx.repo)                    # the decomposition of the ignore spec does not depend on earlier calls (module-level state)
     K.rule_K_REPR(ctx, ctx.repo)                   # the substitute NULL has a constant repr
     for d, paths in _wrappers(ctx, tier):
@@ -273,6 +296,8 @@ def check_C19(ctx, tier):
     G.rule_V(ctx, ctx.repo)
     G.rule_G_STALE(ctx, ctx.repo)
     G.rule_V_TRYRESET(ctx, ctx.repo)
+    G.rule_V_PARTIALSHAPE(ctx, ctx.repo)
+    S.rule_S_IDENT(ctx, ctx.repo, parts=('optional',))   # a fixed argument is told from an open position without mistaking None for a marker
     K.rule_K_OWN(ctx, ctx.repo)                    # signature() is free of cross-call state (a memoised argspec mutated in place changes later verdicts)
     ctx.assume("agreement of validate's individual binding checks with the interpreter (counting, partial bookkeeping) is value-level and not decided")
     return ('Necessary conditions for "validate/isvalid agree with Python\'s binding without calling the function": every rejection is a TypeError; '
@@ -295,6 +320,7 @@ def check_C12(ctx, tier):
     RR.rule_R_GUARD_STR_KW(ctx, ctx.repo)
     RR.rule_R_NONE(ctx, ctx.repo)
     RR.rule_R_PURE(ctx, ctx.repo)
+    RR.rule_R_STATELESS(ctx, ctx.repo)
     RR.rule_R_DEEP(ctx, ctx.repo)
     RR.rule_R_ITER(ctx, ctx.repo)
     ctx.assume('numeric results of round(), and whether type(x)(items) can rebuild arbitrary iterables (range, generators), are not decided')
@@ -307,6 +333,7 @@ def check_C08(ctx, tier):
     S.rule_S_PLAIN_EFF(ctx, ctx.repo)
     S.rule_S_LOAD_DUMP(ctx, ctx.repo)
     S.rule_S_SYNC(ctx, ctx.repo)
+    S.rule_S_NOSWALLOW(ctx, ctx.repo)
     S.rule_S_TOGGLE(ctx, ctx.repo)
     S.rule_S_NULL(ctx, ctx.repo)
     ac8 = A.Cache(ctx.repo, unroll=1)
@@ -314,6 +341,7 @@ def check_C08(ctx, tier):
     A.rule_A_COMMIT(ctx, ctx.repo, ac8)       # ... and committed: sync(clear=True) / dump leave the archive (as every other handle reads it) equal to the cache
     S.rule_S_IDENT(ctx, ctx.repo)             # the archiving switch does not depend on the identity of a per-process placeholder
     A.rule_A_NONE_ABSENT(ctx, ctx.repo)       # load / dump / sync never take a stored None for an absent key
+    A.rule_A_CODEC_CONFIG(ctx, ctx.repo)      # what load() reads carries the keys and values that were stored (no guessing conversion on the way back)
     ctx.assume('archive.update / __asdict__ / __getitem__ of each backend behave as dict operations (C03)')
     return ('class cache overrides no dict primitive; per-method archive effects equal the table (load reads, dump updates, sync '
             'clears?/updates/reads, toggles rebind, others none); load/dump transfer exactly {a: source[a]} per argument or the whole '
@@ -339,10 +367,13 @@ def check_C03(ctx, tier):
     A.rule_A_SCHEMA(ctx, ctx.repo)                # sqlite columns are typeless (keys of different types stay different rows)
     A.rule_A_GETKEY(ctx, ctx.repo)                # the lister recovers exactly the key that was stored
     A.rule_A_COPYTREE(ctx, ctx.repo)              # copy(name) does not merge into an existing archive
+    A.rule_A_COPY_NODESTROY(ctx, ctx.repo, cache) # ... and never removes one
     A.rule_A_PUBPARENTS(ctx, ctx.repo, cache)     # a key containing the path separator is stored (nested) like any other
     A.rule_A_READFAIL(ctx, ctx.repo, cache)       # a store that cannot be decoded reads as empty / missing
     A.rule_A_WRITEALL(ctx, ctx.repo, cache)       # every assignment reaches the store
     A.rule_A_SIBLINGS(ctx, ctx.repo)              # get / pop / __asdict__ decode what __getitem__ decodes; update encodes what __setitem__ encodes
+    A.rule_A_CODEC_CONFIG(ctx, ctx.repo)         # ... decided by the archive's settings, not by what the value looks like
+    A.rule_A_SETTINGS_EXPLICIT(ctx, ctx.repo)     # ... which are the ones the caller passed, not ones guessed from the archive's name
     A.rule_A_EQ(ctx, ctx.repo, cache)
     A.rule_A_NOCACHE(ctx, ctx.repo, cache)        # every answer comes from the store: no handle-local table that a later delete / store leaves stale
     A.rule_A_FNAME(ctx, ctx.repo, cache, aliasing=True)     # distinct keys keep distinct entry names (no new information loss in the key -> name map)
@@ -370,7 +401,10 @@ def check_C04(ctx, tier):
     A.rule_A_FNAME(ctx, ctx.repo, cache)           # a later session finds an entry under the same name
     A.rule_A_CODEC(ctx, ctx.repo)                  # ... and decodes it with the module that encoded it
     A.rule_A_SIBLINGS(ctx, ctx.repo)               # ... in every reader of the dict interface
+    A.rule_A_CODEC_CONFIG(ctx, ctx.repo)         # ... decided by the archive's settings, not by what the value looks like
+    A.rule_A_SETTINGS_EXPLICIT(ctx, ctx.repo)     # ... which are the ones the caller passed, not ones guessed from the archive's name
     A.rule_A_GETKEY(ctx, ctx.repo)                 # ... and lists it under the key it was stored with
+    A.rule_A_SCHEMA(ctx, ctx.repo)                 # ... with the value written last (row order of the sqlite table)
     A.rule_A_GLOBAL(ctx, ctx.repo)                 # ... from the store, not from a process-wide table of objects read earlier (klepto/_pickle.py included)
     A.rule_A_PUBFAIL(ctx, ctx.repo, cache)         # ... and a store that failed (encode error, lost publish race) left the stored contents alone
     ctx.tables['primitives'] = A.PRIMITIVES
@@ -427,6 +461,7 @@ def check_C20(ctx, tier):
     RR.rule_R_NONE(ctx, ctx.repo)
     A.rule_A_RED_COPY(ctx, ctx.repo, cache)
     A.rule_A_RED_MEM(ctx, ctx.repo)
+    A.rule_A_RED_DERIVED(ctx, ctx.repo)  # nothing computed from the settings lives outside __state__ (the constructor re-runs with defaults on unpickling)
     A.rule_A_FACTORY_OPEN(ctx, ctx.repo, cache, open_only=True, factories=False)  # unpickling re-runs the constructor on the shared store: it must not write it
     A.rule_A_EFF(ctx, ctx.repo, cache, must_read_only=True)     # clone and original share storage only: every read goes to the store, not to a process-wide table
     S.rule_S_RED(ctx, ctx.repo)
